@@ -7,16 +7,90 @@ import sys
 ROOT = os.path.dirname(os.path.dirname(os.path.abspath(__file__)))
 
 # id -> (technique, level category, level text, level note, design ref)
+RM = "runtime monitoring: "
+
 CHECKS = {
+    "C09": (
+        RM + "seeded hostile-string documents through the real library; emitted .ui re-read by an independent XML parser (expat), "
+        "grammar-table monitor, string read-back oracle",
+        "exploration",
+        "Hundreds to thousands of generated documents carry markup, quotes, blanks, line breaks, CR, non-ASCII and astral strings in every "
+        "string-bearing position; both serialisations (pretty, compact) are parsed with expat, checked against a transcribed ui4 grammar "
+        "subset and every string/class/name is read back and compared with the generator's value.",
+        "Trusted: expat, the grammar table in qv/uiparse.py, the generator's own record of the strings it printed. Strings with characters "
+        "XML 1.0 cannot carry are only required to yield a well-formed file or a rejection.",
+        "DESIGN.md §4 C09",
+    ),
+    "C10": (
+        RM + "generated object trees with adversarial ids / component names (files on disk, directory modules) through the real "
+        "library; set-arithmetic monitor over names and references of .ui and support header",
+        "exploration",
+        "Ids and custom component names are drawn from the space of generated-looking names (label1, Label1, widget2...); the monitor "
+        "checks pairwise distinct names, ids used verbatim, generated names derived from the class and distinct from ids, every "
+        "addaction / object-valued property / ui_-> access resolving to one declared object of a compatible kind, and that duplicated "
+        "ids and references to incompatible objects are rejected.",
+        "Class compatibility of ui_-><name> accesses in the header is decided by compiling it (C16).",
+        "DESIGN.md §4 C10",
+    ),
+    "C11": (
+        RM + "random object trees through the real library; tree-isomorphism monitor between the generator's tree and the parsed .ui",
+        "exploration",
+        "Trees of depth <= 7 over widgets, four layout classes, spacers, actions, separators, menus, tab widgets and main windows; "
+        "each object must appear once, as the right element kind, under its parent (through <item> in layouts), in source order, "
+        "with the right class; addaction sequences are compared with declaration order / the explicit actions list.",
+        "The generator's tree is the reference; rejected documents are not judged here.",
+        "DESIGN.md §4 C11",
+    ),
+    "C12": (
+        RM + "generated grid/form/box layouts through the real library; reference flow-model oracle over <item> cells and layout arrays",
+        "exploration",
+        "Layouts with 1-14 children and random optional row/column/span/alignment/stretch/minimum-size attachments in both flows and all "
+        "column/row counts; a 40-line reference of the flow rule predicts every cell and every specified array entry; a sixth of the cases "
+        "carries one invalid or conflicting value and must be rejected.",
+        "Reference model written from the property text; cursor semantics of a lone row/column as pinned by the repository's unit tests. "
+        "Unspecified array entries are not judged.",
+        "DESIGN.md §4 C12",
+    ),
+    "C14": (
+        RM + "each generated document (constant-only, dynamic, callbacks, warning-only, single fault) translated in the three modes "
+        "by the real library; relational monitor across the three results",
+        "exploration",
+        "Checks .ui byte equality across modes, reject-acceptance <=> generate-acceptance with an empty header, omit errors being a subset "
+        "of generate errors, and header presence in generate mode only.",
+        "Header emptiness is read from the emitted header text (BindingIndex enumerators, on* functions, setup body).",
+        "DESIGN.md §4 C14",
+    ),
+    "C17": (
+        RM + "random class graphs loaded through the real type-map loader; all-pairs/all-names queries compared with a plain "
+        "graph search; CPU-time watchdog for termination",
+        "exploration",
+        "Hundreds to thousands of generated class graphs (chains, multiple inheritance, diamonds, private/protected edges, self loops, cycles, "
+        "dangling and non-class super names) are loaded as type information; is_derived_from, get_property, get_public_method, nested "
+        "enum and variant lookups and common_base_class are queried for all subject pairs and pool names and compared with a BFS over the "
+        "JSON description; every query must finish within a CPU budget.",
+        "Termination is restated as bounded progress (10 s CPU per job; observed maximum well below 1 ms per query).",
+        "DESIGN.md §4 C17",
+    ),
     "C19": (
-        "runtime monitoring: reference-model oracle over exhaustive short-hex / keyword spaces and sampled strings, "
-        "in-process through the real Color parser and end-to-end through the emitted .ui",
+        RM + "reference-model oracle over exhaustive short-hex / keyword spaces and sampled strings, in-process through the real "
+        "Color parser and end-to-end through the emitted .ui",
         "exploration",
         "Every 3- and 4-digit hex colour and every SVG keyword (5 letter cases) is decoded by the real parser and compared "
         "with an independently written decoder and an independently sourced keyword table; 6-/8-digit colours and "
-        "non-colour strings are sampled; a sample goes end to end through <color>/<brush>/<palette> elements of the .ui.",
+        "non-colour strings (incl. white-space padded colours) are sampled; hundreds go end to end through <color>/<brush>/<palette> "
+        "elements of the .ui.",
         "Trusted: the reference decoder (30 lines, from the property text) and qv/svgcolors.py. 6-/8-digit and junk strings are sampled, not exhausted.",
         "DESIGN.md §4 C19",
+    ),
+    "C20": (
+        RM + "pairs (document, same document with one planted fault) translated in omit mode by the real library; masked tree-diff monitor",
+        "exploration",
+        "One fault of ten kinds is planted at a random object of an accepted document (some with custom components on disk); in omit mode "
+        "the faulted document must still yield a form and an error, the form must equal the reference form outside the faulty object "
+        "(which may only lose its own values), and for unknown/invalid types exactly that subtree must be absent.",
+        "Masked as the object's own values: its property/attribute/item/addaction children, its wrapping <item> attributes and its parent "
+        "layout's per-row/column arrays.",
+        "DESIGN.md §4 C20",
     ),
 }
 
